@@ -350,8 +350,20 @@ func (g *gen) relativise(base refmodel.URI, abs string) (string, string) {
 	if opaque(base) || opaque(a) || !base.IsAbs() || base.Scheme != a.Scheme || base.Authority != a.Authority {
 		return abs, "absolute"
 	}
-	switch g.n(6, "relkind") {
+	switch g.n(8, "relkind") {
 	case 0:
+		return abs, "absolute"
+	case 6:
+		// an absolute reference whose path still contains dot segments (RFC 3986 5.2.2 removes
+		// them even when the reference has a scheme)
+		if a.HasAuth && strings.HasPrefix(a.Path, "/") {
+			return a.Scheme + "://" + a.Authority + "/zz/.." + strings.Replace(a.Path, "/", "/./", 1) + frag, "absolute-dot-segments"
+		}
+		return abs, "absolute"
+	case 7:
+		if strings.HasPrefix(a.Path, "/") {
+			return "/yy/../." + a.Path + frag, "absolute-path-dot-segments"
+		}
 		return abs, "absolute"
 	case 1:
 		return a.Path + frag, "absolute-path"
